@@ -36,7 +36,7 @@ def requirements(tier):
     return {"jseen_checked": 200, "slice_bitwise_checked": 400, "raw_end_to_end_checked": 50, "order_variant_checked": 100,
             "w_reuse": 50, "w_zero_block": 20, "w_equal_sized_inputs": 20, "w_multi_tensor": 50, "w_0d_leaf": 10,
             "w_pre_existing_grad": 50, "w_col_order_differs_from_listing": 5, "w_col_order_equals_listing": 5,
-            "w_float32": 20, "w_chunked": 50}
+            "w_float32": 20, "w_chunked": 50, "w_aggregator_with_user_hooks": 20}
 
 
 def gen_agg_desc(rng, m, proxy):
@@ -87,9 +87,13 @@ def gen_case(rng, i, smooth=False):
     proxy = bool(rng.random() < 0.75)
     chunk = [None, 1, 2, 3, m, m + 2][int(rng.integers(6))]
     pre = [j for j in rg if rng.random() < 0.3]
+    agg_desc = gen_agg_desc(rng, m, proxy)
+    if not proxy and agg_desc["name"] in LINEAR and rng.random() < 0.4:
+        # user hooks registered on the aggregator object are part of `aggregator(J)`
+        agg_desc["hook"] = {"post": float(np.round(rng.uniform(0.2, 3.0), 2)), "pre": [None, float(np.round(rng.uniform(0.5, 2.0), 2))][int(rng.integers(2))]}
     return {"program": desc, "req": req, "container": ["list", "tuple", "set", "gen", "dictkeys"][int(rng.integers(5))],
             "order2": order2, "container2": ["list", "tuple", "set", "gen"][int(rng.integers(4))],
-            "chunk": chunk, "agg": gen_agg_desc(rng, m, proxy), "proxy": proxy, "pregrad": pre,
+            "chunk": chunk, "agg": agg_desc, "proxy": proxy, "pregrad": pre,
             "pseed": int(rng.integers(1 << 30)), "retain": bool(rng.random() < 0.3), "m": m}
 
 
@@ -262,6 +266,8 @@ def check_case(case, ctx):
         ctx.count("w_float32")
     if case["chunk"] is not None and case["chunk"] < case["m"]:
         ctx.count("w_chunked")
+    if case["agg"].get("hook"):
+        ctx.count("w_aggregator_with_user_hooks")
     ctx.klass(f"agg={case['agg']['name']}{'' if case['proxy'] else '(raw)'}")
     ctx.klass(f"chunk={'None' if case['chunk'] is None else ('1' if case['chunk'] == 1 else ('<m' if case['chunk'] < case['m'] else '>=m'))}")
     ctx.klass(f"container={case['container'] if case['req'] is not None else 'default(None)'}")
